@@ -377,6 +377,40 @@ theorem zippy_followup_multikey_counterexample :
 example : (Buf.empty.run (zRun exCfg3 (zchConfigure Zchd.default) [.press 19, .release 19, .press 32, .press 33]).2).shown =
     [⟨19, false, false⟩, ⟨18, false, false⟩] := by decide
 
+/-- dictionary `by ↦ h’elo`, `bye ↦ h’ola` with `’ (no-erase `)` (a dead key) -/
+def cexNoEraseCfg : Cfg := ⟨[⟨[], [21, 48], [⟨.lower, false, 35⟩, ⟨.lower, true, 41⟩, ⟨.lower, false, 18⟩, ⟨.lower, false, 38⟩, ⟨.lower, false, 24⟩]⟩,
+  ⟨[], [18, 21, 48], [⟨.lower, false, 35⟩, ⟨.lower, true, 41⟩, ⟨.lower, false, 24⟩, ⟨.lower, false, 38⟩, ⟨.lower, false, 30⟩]⟩],
+  500, 500, .disabled, []⟩
+
+/-- **zippy_noerase_prefix_counterexample** (the code as it is; KNOWN_FINDINGS `reused-prefix-contains-no-erase-output`).
+Press b y e in one hold.  `by` has typed h, the dead key, e, l, o (four characters to delete: the dead
+key is not counted).  The superseding activation re-uses the common prefix `h’` — TWO outputs but ONE
+display character — and subtracts the number of outputs: two Backspaces instead of three (the run has
+three in all: one erased the typed `b`), then `o l a` without the dead key.  Read literally (every key-down a character) the buffer holds `h ’ e o l a`; with
+the dead key joined to the letter after it the screen shows `h è o l a`; required `h ò l a`. -/
+theorem zippy_noerase_prefix_counterexample :
+    (zRun cexNoEraseCfg (zchConfigure Zchd.default) [.press 48, .press 21, .press 18]).2.filter
+        (fun e => e = .down KEY_BACKSPACE) = [.down KEY_BACKSPACE, .down KEY_BACKSPACE, .down KEY_BACKSPACE] ∧
+    (Buf.empty.run (zRun cexNoEraseCfg (zchConfigure Zchd.default) [.press 48, .press 21, .press 18]).2).shown =
+      [⟨35, false, false⟩, ⟨41, false, false⟩, ⟨18, false, false⟩, ⟨24, false, false⟩, ⟨38, false, false⟩,
+       ⟨30, false, false⟩] := by
+  decide
+
+/-- dictionary `dy ↦ day`, `dy 1 ↦ Mo` (kanata's sample lines, the second shortened) -/
+def cexCapsCfg : Cfg := ⟨[⟨[], [21, 32], [⟨.lower, false, 32⟩, ⟨.lower, false, 30⟩, ⟨.lower, false, 21⟩]⟩,
+  ⟨[[21, 32]], [2], [⟨.upper, false, 50⟩, ⟨.lower, false, 24⟩]⟩], 500, 500, .disabled, []⟩
+
+/-- **zippy_caps_word_capital_kept** (repaired code, PENDING-2; KNOWN_FINDINGS `fixed`).  Caps-word is on
+but holds no shift (the follow-up key `1` is not a letter, so caps-word adds no LShift): the follow-up
+`dy 1 ↦ Mo` is typed after three Backspaces with its capital under a shift of its own, and that shift
+is released again.  Before the repair `maybe_press_sft_during_activation` did nothing whenever caps-word
+was active and the text came out as `mo` (witness on the real code: corpus/C20.txt, family `zcw`). -/
+theorem zippy_caps_word_capital_kept :
+    let s1 := (zRun cexCapsCfg (zchConfigure Zchd.default) [.press 32, .press 21, .release 32, .release 21]).1
+    let r := zRun cexCapsCfg { s1 with capsWord := true } [.press 2]
+    r.2 = bspcs 3 ++ [.down KEY_LEFTSHIFT, .down 50, .up 50, .up KEY_LEFTSHIFT, .down 24, .up 24] := by
+  decide
+
 /-- dictionary `e ↦ a`, `e, ↦ a.`, `e,.b ↦ ␣btY` -/
 def cexPrefixCfg : Cfg := ⟨[⟨[], [18], [⟨.lower, false, 30⟩]⟩,
   ⟨[], [18, 51], [⟨.lower, false, 30⟩, ⟨.lower, false, 52⟩]⟩,
